@@ -451,6 +451,7 @@ func clFreeContexts(c *Ctx) {
 	}
 	// Close frees every linked node once: item then node, node read before the cursor advances
 	clCloseTeardown(c)
+	clFreeWorkerOrder(c)
 }
 
 func guardedByFailedInsert(p *Prog, fi *FuncInfo, at ssa.Instruction, obj ssa.Value) bool {
@@ -585,6 +586,43 @@ func clCloseTeardown(c *Ctx) {
 		}
 		c.Check(okItem, fn, f, "sweep frees the node's item before the node", "items of linked nodes are leaked, or the item pointer is read from a freed node")
 	}
+}
+
+// free worker: everything that is read from a node (its link, its item) is read
+// before the node is freed
+func clFreeWorkerOrder(c *Ctx) {
+	p := c.P
+	fn := p.Func("nitro", "Nitro", "freeWorker")
+	fi := p.Info(fn)
+	freeNode := p.Func("skiplist", "Skiplist", "FreeNode")
+	freeItem := p.Func("nitro", "Nitro", "freeItem")
+	getLink := p.Func("skiplist", "Node", "GetLink")
+	nodeItem := p.Func("skiplist", "Node", "Item")
+	frees := p.CallSites(fn, freeNode)
+	if len(frees) == 0 {
+		undecidedf("freeWorker: FreeNode call not found")
+	}
+	for _, fr := range frees {
+		node := strip(callOf(fr).Args[1])
+		h := loopHeaderOf(fr.Block())
+		stale := fi.PathAvoiding(fr, func(x ssa.Instruction) bool {
+			if !p.IsCall(x, getLink, nodeItem) {
+				return false
+			}
+			return strip(callOf(x).Args[0]) == node
+		}, func(x ssa.Instruction) bool { return h != nil && x.Block() == h })
+		c.Check(stale == nil, fn, fr, "free worker reads a node's link and item before it frees the node", "the free worker follows GetLink()/Item() of a node it has just returned to the allocator (use-after-free; with a reusing allocator it walks into foreign memory)")
+		// the item of the node is freed too, before the node
+		okItem := false
+		for _, fi2 := range p.CallSites(fn, freeItem) {
+			if it, ok := strip(callOf(fi2).Args[1]).(*ssa.Call); ok && p.CallsAny(it, nodeItem) && strip(it.Call.Args[0]) == node && fi.Dominates(fi2, fr) {
+				okItem = true
+			}
+		}
+		c.Check(okItem, fn, fr, "free worker frees the node's item before the node", "items of reclaimed nodes are leaked, or read from a freed node")
+	}
+	// every node of the received list is freed: the cursor advances by GetLink of the node being freed
+	c.Check(len(p.CallSites(fn, getLink)) >= 1, fn, nil, "free worker walks the whole list it received", "only the first node of a reclaimed list is freed")
 }
 
 // C04.d who may feed the free workers
